@@ -394,14 +394,29 @@ func (g *c16Gen) makeExact(b *c16Base) *c16Case {
 	}
 	kw := g.pick(kws)
 	cs := &c16Case{Base: b, Strategy: "namer-exact", Ren: c16x.Renaming{}, Class: map[string]string{}, Predict: map[string]string{}}
+	// the model writes a non-ASCII letter as the symbols u 9 _ : é (U+00E9) is written u00e9_
+	exactName := func(syms []string) string {
+		var sb strings.Builder
+		for _, c := range syms {
+			switch c {
+			case "u":
+				sb.WriteString("u00e")
+			case "e":
+				sb.WriteString("é")
+			default:
+				sb.WriteString(g.concrete(c, stem, kw, "", ""))
+			}
+		}
+		return sb.String()
+	}
 	for i, lab := range line.Labels {
-		n := g.concrete(strings.Join(lab, ""), stem, kw, "", "")
+		n := exactName(lab)
 		if c16x.WgslNameClass(n) != "plain" || p.idents[n] {
 			return nil
 		}
 		cs.Ren[locals[i]] = n
 		cs.Class[n] = "namer"
-		cs.Predict[locals[i]] = g.concrete(strings.Join(line.Spellings[i], ""), stem, kw, "", "")
+		cs.Predict[locals[i]] = exactName(line.Spellings[i])
 	}
 	return cs
 }
@@ -508,8 +523,12 @@ func (g *c16Gen) sweep(b *c16Base) []*c16Case {
 // variants of its case-insensitive words) at least once: the words are dealt out to the program's entities, a
 // different entity kind for a word from one rotation to the next (rot).
 func (g *c16Gen) cover(b *c16Base, rot int) []*c16Case {
+	return g.coverWords(b, rot, g.reservedPool(b.backend), "reserved-"+b.backend)
+}
+
+// coverWords deals the given words out to the program's entities (see cover).
+func (g *c16Gen) coverWords(b *c16Base, rot int, words []string, class string) []*c16Case {
 	p := b.prog
-	words := g.reservedPool(b.backend)
 	var out []*c16Case
 	names := append([]string{}, p.names...)
 	if len(names) == 0 {
@@ -527,7 +546,7 @@ func (g *c16Gen) cover(b *c16Base, rot int) []*c16Case {
 				wi++
 				if _, done := cs.Ren[old]; !done && usable(p, old, w, taken) {
 					cs.Ren[old] = w
-					cs.Class[w] = "reserved-" + b.backend
+					cs.Class[w] = class
 					taken[w] = true
 					break
 				}
@@ -535,6 +554,48 @@ func (g *c16Gen) cover(b *c16Base, rot int) []*c16Case {
 		}
 		if len(cs.Ren) > 0 {
 			out = append(out, cs)
+		}
+	}
+	return out
+}
+
+// twins builds renamings in which a module-scope entity and a function-level one (and two members) get names that
+// differ only in what the sanitiser removes (a trailing `_`, a doubled `__`): the namer must keep them apart
+// although their sanitised bases coincide.
+func (g *c16Gen) twins(b *c16Base) []*c16Case {
+	p := b.prog
+	var mod, loc, mem []string
+	for _, n := range p.names {
+		switch k := p.kinds[n][0]; {
+		case k == "member":
+			mem = append(mem, n)
+		case c16LocalKinds[k]:
+			loc = append(loc, n)
+		case strings.HasPrefix(k, "global-") || k == "const" || k == "fn":
+			mod = append(mod, n)
+		}
+	}
+	pairs := [][2]string{{"total_", "total"}, {"total", "total_"}, {"to__tal", "to_tal"}, {"sum__", "sum"}, {"acc_1_", "acc_1"}, {"w__1", "w_1"}}
+	var out []*c16Case
+	add := func(a, b2 string, pr [2]string) {
+		cs := &c16Case{Base: b, Strategy: "twins", Ren: c16x.Renaming{}, Class: map[string]string{}}
+		taken := map[string]bool{}
+		if usable(p, a, pr[0], taken) {
+			taken[pr[0]] = true
+			if usable(p, b2, pr[1], taken) {
+				cs.Ren[a], cs.Ren[b2] = pr[0], pr[1]
+				cs.Class[pr[0]], cs.Class[pr[1]] = "twin", "twin"
+				out = append(out, cs)
+			}
+		}
+	}
+	for i, pr := range pairs {
+		if len(mod) > 0 && len(loc) > 0 {
+			// every function-level entity in turn, so that one of them is used next to the module-scope twin
+			add(mod[(i+g.rng.Intn(len(mod)))%len(mod)], loc[(i*7+g.rng.Intn(len(loc)))%len(loc)], pr)
+		}
+		if len(mem) > 1 {
+			add(mem[i%len(mem)], mem[(i+1)%len(mem)], pr)
 		}
 	}
 	return out
